@@ -39,6 +39,9 @@ type Log struct {
 	Time  uint64
 	TZ    int16
 	Msg   string
+	// Fut (harness only): a new entry of a transaction is filed under the
+	// transaction's update index plus Fut
+	Fut uint64
 }
 
 // LogKey orders logs: name ascending, update index descending.
